@@ -31,7 +31,7 @@ RULE = ("solver leg: each run draws a smooth residual map with a known root (aff
         "must converge). orbit leg: real orbit.correct() with the injector spliced into _NewtonBackend.run; success => closes under an independent "
         "scipy DOP853 propagation within 50*||M||*max(tol,1e-12), constraint residual at T/2 below bound, period == 2*half_period; failure => "
         "orbit state and period unchanged. Histories: the backend and stepper factory may already have solved another problem (other cap / norm / "
-        "tolerance); orbit objects may have a pre-history (loose-then-tight correction, rounded state and period, re-corrected or failed "
+        "tolerance) or the same problem through the identical residual / Jacobian / norm callables under another cap, tolerance and start; orbit objects may have a pre-history (loose-then-tight correction, rounded state and period, re-corrected or failed "
         "correction followed by an edit of a non-control component, a converged state carrying another orbit's period), a step cap differing "
         "between pre-history and judged call, a finite-difference Jacobian configuration, backward correction, a failing half-period event. "
         "A run is non-trivial iff >= 1 fault fired; distinct = distinct (configuration, fault schedule) digests.")
